@@ -40,3 +40,28 @@ package smtpconn
 //@   trusted
 //@   requires c != nil
 //@   modifies *c.cl, gosmtp.SMTPError.Code, gosmtp.SMTPError.EnhancedCode
+// Small accessors / close used by the remote target (C05, C09).
+//@ func (*C).Client
+//@   prop C05 C09
+//@   requires c != nil
+//@   ensures result == c.cl
+// Close ends the connection (QUIT, or closing the socket); it works on the connection object and its client only
+// (trusted frame).
+// sockClosed(c): the network connection of c was closed (ghost). Close always closes it, even when QUIT fails and the
+// client object is kept in the cl field; nothing can be transmitted on it afterwards.
+//@ ghost field C.sockClosed bool
+//@ func (*C).Close
+//@   prop C05
+//@   trusted
+//@   requires c != nil
+//@   modifies *c, *c.cl
+//@   ensures c.cl == nil || c.sockClosed
+//@ func New
+//@   prop C05
+//@   ensures result != nil && fresh(result) && result.cl == nil
+//@ func (*C).LocalAddr
+//@   prop C05
+//@ func (*C).RemoteAddr
+//@   prop C05
+//@ func (*C).ServerName
+//@   prop C05
